@@ -193,6 +193,9 @@ Theorem c18_source_priority_table :
   forall name, prio name = prio_lookup name src_log_prio_table src_log_prio_default.
 Proof. exact log_prio_tie. Qed.
 
+Theorem c18_translation_complete : src_problems_log_prio = 0%nat.
+Proof. exact log_prio_translated. Qed.
+
 Print Assumptions c18_refines_spec.
 Print Assumptions c18_one_event_per_call.
 Print Assumptions c18_other_calls_send_nothing.
@@ -215,3 +218,4 @@ Print Assumptions c18_oracle_own_tags_sound.
 Print Assumptions c18_oracle_lines_sound.
 Print Assumptions c18_wf_preserved.
 Print Assumptions c18_source_priority_table.
+Print Assumptions c18_translation_complete.
